@@ -243,3 +243,9 @@ Proof.
         -- split; [|reflexivity]. intros _ k Hk Hl. destruct k as [|k]; [congruence|].
            destruct (proj1 IH eq_refl k Hk ltac:(lia)) as [i [Hi Hs]]. exists (S i). split; [lia | exact Hs].
 Qed.
+
+Lemma bare_number_both bits uns txt env dot rel r v b8 rep :
+  br_operand txt (Num r v true b8 rep) = Sym r true
+  /\ enc_of (compile_br bits uns txt env dot rel (Num r v true b8 rep))
+     = enc_of (compile_br bits uns txt env dot rel (Sym r true)).
+Proof. split; [apply bare_number_operand | apply bare_number_is_local_label]. Qed.
